@@ -7,7 +7,7 @@ VARIABLE stim
 CONSTANT EmitAt
 
 PushedPk(n) == nets'[n].ibuf[Len(nets'[n].ibuf)]
-WillJson(w) == IF w = NOMSG THEN "null" ELSE [m |-> w.m, topic |-> w.topic, q |-> w.q, retain |-> w.retain]
+WillJson(w) == [m |-> w.m, topic |-> w.topic, q |-> w.q, retain |-> w.retain]       \* m = 0: no will
 
 GenInit == Init /\ stim = <<>>
 GenNext ==
